@@ -909,6 +909,102 @@ func runPersistStep(sc sweepScenario) sweepResult {
 	return res
 }
 
+// runReadBufferClear (C17): a reader has reserved its slot in the read buffer and is parked before it publishes the element
+// (hook "ring.add.publish"); InvalidateAll discards the buffered reads; the reader publishes; later another reader is parked
+// the same way across a maintenance run.  At quiescence, after a final run, every element that was recorded has been handed
+// to the consumer or discarded: none is left published out of the consumer's reach.
+func runReadBufferClear(sc sweepScenario) sweepResult {
+	res := sweepResult{T: "sweep", Sc: sc, TickNs: 1 << 30}
+	clk := &stallClock{never: make(chan time.Time), stalled: make(chan struct{}), resume: make(chan struct{})}
+	clk.now.Store(int64(5) << 30)
+	var qmu sync.Mutex
+	var queue []func()
+	o := &Options[int, int]{
+		Clock:            clk,
+		ExpiryCalculator: ExpiryWriting[int, int](time.Hour),
+		Executor: func(fn func()) { // maintenance only when the scenario runs it
+			qmu.Lock()
+			queue = append(queue, fn)
+			qmu.Unlock()
+		},
+	}
+	if sc.Sized == 1 {
+		o.MaximumSize = 100
+	}
+	c := Must(o)
+	defer c.StopAllGoroutines()
+	c.Set(1, 11)
+	c.Set(2, 22)
+	c.CleanUp()
+	var gmu sync.Mutex
+	type park struct{ arrived, resume chan struct{} }
+	gates := map[uint64]*park{}
+	verifhookInstall(func(id string, v uint64) {
+		if id != "ring.add.publish" {
+			return
+		}
+		gmu.Lock()
+		g := gates[verifkit.GoID()]
+		delete(gates, verifkit.GoID())
+		gmu.Unlock()
+		if g != nil {
+			close(g.arrived)
+			<-g.resume
+		}
+	})
+	defer verifhookInstall(nil)
+	parkedRead := func(k int) (*park, chan struct{}) {
+		g := &park{arrived: make(chan struct{}), resume: make(chan struct{})}
+		done := make(chan struct{})
+		ready := make(chan struct{})
+		go func() {
+			defer close(done)
+			gmu.Lock()
+			gates[verifkit.GoID()] = g
+			gmu.Unlock()
+			close(ready)
+			c.GetIfPresent(k)
+		}()
+		<-ready
+		select {
+		case <-g.arrived:
+		case <-done: // the read was not recorded (first element of a new ring, or dropped): nothing is parked
+		case <-time.After(2 * time.Second):
+			res.Hang = 1
+		}
+		return g, done
+	}
+	release := func(g *park, done chan struct{}) {
+		select {
+		case <-done:
+			return
+		default:
+		}
+		close(g.resume)
+		select {
+		case <-done:
+		case <-time.After(2 * time.Second):
+			res.Hang = 1
+		}
+	}
+	c.GetIfPresent(1) // the stripe's ring exists
+	p, pdone := parkedRead(1)
+	c.InvalidateAll() // discards the buffered reads while P holds a reserved, unpublished slot
+	release(p, pdone)
+	c.Set(1, 11)
+	c.Set(2, 22)
+	for i := 0; i < sc.Warm; i++ {
+		c.GetIfPresent(2)
+	}
+	q, qdone := parkedRead(2)
+	c.CleanUp() // a maintenance run while Q holds a reserved, unpublished slot
+	release(q, qdone)
+	verifhookInstall(nil)
+	c.CleanUp() // quiescent
+	res.Stranded = c.cache.readBuffer.StrandedForVerif()
+	return res
+}
+
 type sweepResult struct {
 	T       string        `json:"t"`
 	Sc      sweepScenario `json:"sc"`
@@ -930,6 +1026,7 @@ type sweepResult struct {
 	LdRuns      int `json:"ldruns"`      // ld.x: loader invocations
 	Hits        int `json:"hits"`        // sia.x: hits / misses recorded by the race (the reader's lookup is a hit)
 	Misses      int `json:"misses"`
+	Stranded    int `json:"stranded"`    // rb.x: elements of the read buffer that are published but out of the consumer's reach at quiescence
 	BadRef      int `json:"badref"`      // persist.x: loaded entries whose "never" refresh deadline came back as something else
 	BadExp      int `json:"badexp"`      // persist.x: ... expiration deadline
 	Loaded      int `json:"loaded"`      // persist.x: entries found in the target
@@ -1041,6 +1138,10 @@ func TestVerifSweep(t *testing.T) {
 	defer w.Flush()
 	enc := json.NewEncoder(w)
 	for _, sc := range scs {
+		if sc.Op == "rb.clear" {
+			_ = enc.Encode(runReadBufferClear(sc))
+			continue
+		}
 		if sc.Op == "persist.step" {
 			_ = enc.Encode(runPersistStep(sc))
 			continue
